@@ -26,6 +26,16 @@ def sandeel_dev_case(rng, n=None):
     active = np.array([(1 <= s < 2) for s in stage])
     bt = rng.choice([-2.0, 2.0, 3.0, 4.0, 5.5, 7.0, 9.0, 10.0, 25.0])
     temp = rng.choice([-1.0, 0.0, 6.0, 12.0, 25.0])
+    if rng.random() < 0.3:
+        # exact-threshold eggs: stage + dt/(days*86400) == 1.0 exactly (activation uses `>= 1`)
+        M = __import__("importlib").import_module("ladim_plugins.sandeel.ibm")
+        days = M.hatch_time(hatch, np.full(n, bt))
+        for i in range(n):
+            inc = dt / (days[i] * 60 * 60 * 24)
+            for cand in (1.0 - inc, np.nextafter(1.0 - inc, 0.0), np.nextafter(1.0 - inc, 2.0)):
+                if 0 <= cand < 1 and cand + inc == 1.0:
+                    stage[i] = cand; active[i] = False
+                    break
     return dict(dt=dt, stage=stage, hatch=hatch, active=active, bt=bt, temp=temp, n=n)
 
 
